@@ -271,6 +271,13 @@ func (e *Engine) atomicRMW(st *State, kind string, p PtrV, et types.Type, a, b V
 		e.inAtomicAcc = true
 		defer func() { e.inAtomicAcc = false }()
 	}
+	if e.race != nil {
+		for _, al := range p.Alts {
+			if al.Obj != nil && !al.G.IsFalse() {
+				e.raceSync(al.Obj.String()+selKey(al.Path), kind != "store", kind != "load")
+			}
+		}
+	}
 	switch kind {
 	case "load":
 		return e.Load(st, p, et, site)
